@@ -37,7 +37,7 @@ def spec_trees():
     }
 
 
-@rule("C06.trees", props=["C06"], min_instances=3, mutants=[
+@rule("C06.trees", props=["C06", "C19"], min_instances=3, mutants=[
     ("sw as ~x * y * x", ("codegen", "    return x * y * ~x", "    return ~x * y * x")),
     ("sw without reversion", ("codegen", "    return x * y * ~x", "    return x * y * x")),
     ("proj with the outer product", ("codegen", "    return (x | y) * ~y", "    return (x ^ y) * ~y")),
